@@ -593,11 +593,172 @@ func textDetector(c *core.Ctx) (*tree.Node, *ssa.Function) {
 
 // reachesCallee reports whether f reaches (through module functions) a call
 // whose callee satisfies pred.
+// funcOperands: module functions that f mentions as values (passed to a
+// combinator, stored in a table): they may run on f's behalf.
+func funcOperands(f *ssa.Function) []*ssa.Function {
+	var out []*ssa.Function
+	for _, b := range f.Blocks {
+		for _, in := range b.Instrs {
+			for _, op := range in.Operands(nil) {
+				g, ok := core.Unwrap(*op).(*ssa.Function)
+				if !ok || !core.InMod(g) {
+					continue
+				}
+				if call, isCall := in.(ssa.CallInstruction); isCall && call.Common().Value == *op {
+					continue // the callee of a static call
+				}
+				out = append(out, g)
+			}
+		}
+	}
+	return out
+}
+
+// firstNonEmpty recognises the combinator
+//
+//	func(content []byte, fs ...func([]byte) string) string { for _, f := range fs { if r := f(content); r != "" { return r } }; return "" }
+//
+// and returns the positions of the input and of the function list.
+func firstNonEmpty(h *ssa.Function) (in, fs int, ok bool) {
+	if h == nil || h.Blocks == nil || len(h.Params) != 2 || h.Signature.Results().Len() != 1 || !core.IsString(h.Signature.Results().At(0).Type()) {
+		return 0, 0, false
+	}
+	in, fs = -1, -1
+	for i, p := range h.Params {
+		if core.IsByteSlice(p.Type()) {
+			in = i
+		} else if sl, isSl := p.Type().Underlying().(*types.Slice); isSl {
+			if _, isFn := sl.Elem().Underlying().(*types.Signature); isFn {
+				fs = i
+			}
+		}
+	}
+	if in < 0 || fs < 0 {
+		return 0, 0, false
+	}
+	rs := fde.FindRangeOver(h, h.Params[fs])
+	if len(rs) != 1 {
+		return 0, 0, false
+	}
+	r := rs[0]
+	var call *ssa.Call
+	for _, ins := range r.Body.Instrs {
+		if c, isCall := ins.(*ssa.Call); isCall {
+			if call != nil {
+				return 0, 0, false
+			}
+			call = c
+		}
+	}
+	if call == nil || call.Call.Value != ssa.Value(r.Load) || len(call.Call.Args) != 1 || call.Call.Args[0] != ssa.Value(h.Params[in]) {
+		return 0, 0, false
+	}
+	iff := core.IfOf(r.Body)
+	if iff == nil {
+		return 0, 0, false
+	}
+	cond, pos := core.StripNot(iff.Cond, true)
+	bo, isBo := cond.(*ssa.BinOp)
+	if !isBo || bo.X != ssa.Value(call) {
+		return 0, 0, false
+	}
+	if k, isC := core.ConstString(bo.Y); !isC || k != "" {
+		return 0, 0, false
+	}
+	hit, miss := r.Body.Succs[0], r.Body.Succs[1]
+	if (bo.Op == token.EQL) == pos {
+		hit, miss = miss, hit
+	} else if bo.Op != token.NEQ && bo.Op != token.EQL {
+		return 0, 0, false
+	}
+	rh, rd := retOf(hit), retOf(r.Done)
+	if rh == nil || rh.Results[0] != ssa.Value(call) || miss != r.Header || rd == nil {
+		return 0, 0, false
+	}
+	if k, isC := core.ConstString(rd.Results[0]); !isC || k != "" {
+		return 0, 0, false
+	}
+	if len(core.Returns(h)) != 2 {
+		return 0, 0, false
+	}
+	return in, fs, true
+}
+
+// stagesOf: when f's body is `return comb(input, g1, ..., gn)` with a verified
+// first-non-empty combinator, the functions tried in order.
+func stagesOf(f *ssa.Function) []*ssa.Function {
+	rs := core.Returns(f)
+	if len(rs) != 1 || len(f.Params) != 1 {
+		return nil
+	}
+	call, ok := rs[0].Results[0].(*ssa.Call)
+	if !ok {
+		return nil
+	}
+	h := call.Call.StaticCallee()
+	in, fs, ok := firstNonEmpty(h)
+	if !ok || call.Call.Args[in] != ssa.Value(f.Params[0]) {
+		return nil
+	}
+	// the variadic list: a slice of a local array whose elements are function constants, stored once each
+	sl, ok := call.Call.Args[fs].(*ssa.Slice)
+	if !ok || sl.Low != nil || sl.High != nil {
+		return nil
+	}
+	arr, ok := sl.X.(*ssa.Alloc)
+	if !ok {
+		return nil
+	}
+	at, ok := arr.Type().Underlying().(*types.Pointer).Elem().Underlying().(*types.Array)
+	if !ok {
+		return nil
+	}
+	out := make([]*ssa.Function, at.Len())
+	for _, ref := range *arr.Referrers() {
+		ia, ok := ref.(*ssa.IndexAddr)
+		if !ok {
+			continue
+		}
+		i, isC := core.ConstInt(ia.Index)
+		if !isC || i < 0 || i >= at.Len() {
+			return nil
+		}
+		for _, r2 := range *ia.Referrers() {
+			st, ok := r2.(*ssa.Store)
+			if !ok {
+				return nil
+			}
+			g, ok := core.Unwrap(st.Val).(*ssa.Function)
+			if !ok || out[i] != nil {
+				return nil
+			}
+			out[i] = g
+		}
+	}
+	for _, g := range out {
+		if g == nil {
+			return nil
+		}
+	}
+	// nothing else happens in f
+	for _, ci := range core.Calls(f) {
+		if ci != ssa.CallInstruction(call) {
+			return nil
+		}
+	}
+	return out
+}
+
 func reachesCallee(f *ssa.Function, pred func(*ssa.CallCommon) bool, seen map[*ssa.Function]bool) bool {
 	if f == nil || seen[f] || f.Blocks == nil {
 		return false
 	}
 	seen[f] = true
+	for _, g := range funcOperands(f) {
+		if reachesCallee(g, pred, seen) {
+			return true
+		}
+	}
 	for _, ci := range core.Calls(f) {
 		if pred(ci.Common()) {
 			return true
